@@ -261,7 +261,8 @@ def run_property(pid, tier, rules, meta, controls=(), negatives=()):
             'exhaustive': False,
             'tree_hash': tree_hash(),
         },
-        'assumptions': meta.get('assumptions', []),
+        'assumptions': list(meta.get('assumptions', [])) + ['no allocated object (slice, Vec, String) is larger than 2^56 bytes (the panic census and every length argument bound lengths by 2^56 / size_of(element))',
+                                                       'library contracts of bls12_381_plus, rug, rand, elliptic-curve, digest as written into the rule tables'],
         'wall_s': round(time.time() - t0, 3),
         'violations': len(unknown_viol) + len(broken),
     }
